@@ -51,6 +51,8 @@ type MsgSpec struct {
 	// Up: the party named by A is written in the all-upper-case form of its bech32 address (a
 	// legal encoding of the same account; wallets and QR codes produce it)
 	Up bool `json:"up,omitempty"`
+	// UpB: the same for the party named by B (receiver, whitelisted address ...)
+	UpB bool `json:"up_b,omitempty"`
 }
 
 // ParamSpec carries parameters for the four UpdateParams messages (raw so that invalid values can
